@@ -156,6 +156,12 @@ func (cp *cssProcessor) Add(item any) {
 		}
 	case KeyValue[CSSClass, bool]:
 		cp.AddClassName(c.Key.ClassName(), c.Value)
+	case []KeyValue[ComponentCSSClass, bool]:
+		for _, kv := range c {
+			cp.AddClassName(kv.Key.ClassName(), kv.Value)
+		}
+	case KeyValue[ComponentCSSClass, bool]:
+		cp.AddClassName(c.Key.ClassName(), c.Value)
 	case CSSClasses:
 		for _, item := range c {
 			cp.Add(item)
@@ -367,6 +373,14 @@ func renderCSSItemsToBuilder(sb *strings.Builder, v *contextValue, classes ...an
 				continue
 			}
 			renderCSSItemsToBuilder(sb, v, ccc.Key)
+		case []KeyValue[ComponentCSSClass, bool]:
+			for _, kv := range ccc {
+				renderCSSItemsToBuilder(sb, v, kv)
+			}
+		case []KeyValue[CSSClass, bool]:
+			for _, kv := range ccc {
+				renderCSSItemsToBuilder(sb, v, kv)
+			}
 		case CSSClasses:
 			renderCSSItemsToBuilder(sb, v, ccc...)
 		case []CSSClass:
